@@ -20,6 +20,7 @@
 #include <typeinfo>
 
 #include "../chaiscript_threading.hpp"
+#include "../chaiscript_verif.hpp"
 #include "../utility/static_string.hpp"
 #include "bad_boxed_cast.hpp"
 #include "boxed_cast_helper.hpp"
@@ -282,6 +283,7 @@ namespace chaiscript {
       if (cache.size() != m_num_types) {
         chaiscript::detail::threading::shared_lock<chaiscript::detail::threading::shared_mutex> l(m_mutex);
         cache = m_convertableTypes;
+        CHAISCRIPT_VERIF_EVENT("acc", &m_mutex, "convertable_types", 0, 0, 0, "");
       }
 
       return cache;
@@ -295,6 +297,7 @@ namespace chaiscript {
       m_conversions.insert(conversion);
       m_convertableTypes.insert({conversion->to().bare_type_info(), conversion->from().bare_type_info()});
       m_num_types = m_convertableTypes.size();
+      CHAISCRIPT_VERIF_EVENT("acc", &m_mutex, "conversions", 1, static_cast<long>(m_conversions.size()), 0, "");
     }
 
     template<typename T>
@@ -365,6 +368,7 @@ namespace chaiscript {
 
     bool has_conversion(const Type_Info &to, const Type_Info &from) const {
       chaiscript::detail::threading::shared_lock<chaiscript::detail::threading::shared_mutex> l(m_mutex);
+      CHAISCRIPT_VERIF_EVENT("acc", &m_mutex, "conversions", 0, 0, 0, "");
       return find_bidir(to, from) != m_conversions.end();
     }
 
@@ -372,6 +376,7 @@ namespace chaiscript {
       chaiscript::detail::threading::shared_lock<chaiscript::detail::threading::shared_mutex> l(m_mutex);
 
       const auto itr = find(to, from);
+      CHAISCRIPT_VERIF_EVENT("acc", &m_mutex, "conversions", 0, 0, 0, "");
 
       if (itr != m_conversions.end()) {
         return *itr;
@@ -402,6 +407,7 @@ namespace chaiscript {
 
     std::set<std::shared_ptr<detail::Type_Conversion_Base>> get_conversions() const {
       chaiscript::detail::threading::shared_lock<chaiscript::detail::threading::shared_mutex> l(m_mutex);
+      CHAISCRIPT_VERIF_EVENT("acc", &m_mutex, "conversions", 0, 0, 0, "");
 
       return m_conversions;
     }
